@@ -386,6 +386,11 @@ fn build() -> Benches {
   Benches { rel, be, wb, ids }
 }
 
+/// entity ids for the socket-free workload (no benches behind them)
+pub fn pure_ids() -> Ids {
+  Ids { own_prefix: [0x01, 0x12, 3, 4, 5, 6, 7, 8, 9, 10, 11, 12], rel_reader: [0, 0, 1, 0x07], be_reader: [0, 0, 2, 0x04], writer: [0, 0, 3, 0x02], wa: wa_guid(true), wa_nokey: wa_guid(false) }
+}
+
 pub struct HOutcome {
   pub datagrams: u64,
   pub panics: u64,
